@@ -19,6 +19,7 @@ class Leaf(Root):
     o: Optional[float] = None
     k: int = 0
     labels: List[str] = field(default_factory=list)
+    p: Optional[float] = None
 
     def __repr__(self):
         return f"Leaf#{self.uid}"
@@ -63,6 +64,7 @@ class Top(Root):
     holder: Holder = None
     backup: Holder = None
     rank: int = 0
+    spare: Optional[SubHolder] = None
 
     def __repr__(self):
         return f"Top#{self.uid}"
